@@ -254,7 +254,7 @@ pub fn prop() -> Prop {
             Sub { name: "box-small", kind: Kind::Exhaustive(box_small) },
             Sub { name: "box-boundary", kind: Kind::Exhaustive(box_boundary) },
             Sub { name: "box-non-arrays", kind: Kind::Exhaustive(box_non_arrays) },
-            Sub { name: "random-nested", kind: Kind::Random { f: random_nested, quick: 40_000, thorough: 1_600_000, len: 400 } },
+            Sub { name: "random-nested", kind: Kind::Random { f: random_nested, quick: 200_000, thorough: 4_000_000, len: 400 } },
         ],
         direct: Some(direct),
         selftest: Some(crate::rfc::selftest),
